@@ -348,10 +348,16 @@ pub fn check_emitted_generic(acc: &mut Acc, g: &ModuleGraph, fx: &FcCtx) {
       let mut v1 = BTreeSet::new();
       let e_names = emitted_exports(&em.specifier, &tops, &mut v1).unwrap_or_default();
       let o_names = original_exports(g, &em.specifier);
+      // (names flow on through `export *`, so all modules are scanned)
+      let expando_defaults: BTreeSet<String> = ems.iter().flat_map(|e| default_fn_expando_names(&e.original, &e.emitted)).collect();
       for n in &e_names {
         if !o_names.contains(n) {
           acc.violation(
-            "exports/emitted-exports-name-the-original-lacks",
+            if expando_defaults.contains(n) {
+              "exports/default-exported-function-with-expando-properties-becomes-a-named-export"
+            } else {
+              "exports/emitted-exports-name-the-original-lacks"
+            },
             format!("{}: `{}`", em.specifier, n),
             w(json!({"emitted_exports": e_names, "original_exports": o_names})),
           );
@@ -637,7 +643,10 @@ pub fn check_generated(acc: &mut Acc, pkgs: &[Pkg], g: &ModuleGraph, fx: &FcCtx)
         if emitted != intended {
           let missing: Vec<_> = intended.difference(&emitted).collect();
           let extra: Vec<_> = emitted.difference(&intended).collect();
-          let via = if missing.iter().any(|n| n.as_str() == "default") {
+          let expando_defaults: BTreeSet<String> = ems.iter().flat_map(|e| default_fn_expando_names(&e.original, &e.emitted)).collect();
+          let via = if missing.is_empty() && !extra.is_empty() && extra.iter().all(|n| expando_defaults.contains(*n)) {
+            "extra/default-exported-function-with-expando-properties-becomes-a-named-export"
+          } else if missing.iter().any(|n| n.as_str() == "default") {
             "default"
           } else if missing.iter().any(|n| n.starts_with("ns")) {
             "namespace re-export"
@@ -1028,4 +1037,26 @@ pub fn run(which: &'static str, tier: Tier, seed: u64) -> i32 {
   let mut acc = par_run(n, |i, acc| gen_case(i, seed, acc, which));
   corpus_case(&mut acc, which);
   rep.finish(acc)
+}
+
+/// names N for which the original has `export default function N` with expando assignments (`N.x = ...`) and the
+/// emitted module declares `export namespace N` (the synthesised expando namespace carries `export` because the
+/// function has an export keyword - but that keyword exports `default`, not `N`)
+fn default_fn_expando_names(original: &str, emitted: &str) -> BTreeSet<String> {
+  let mut out = BTreeSet::new();
+  for marker in ["export default function ", "export default async function "] {
+    let mut rest = original;
+    while let Some(i) = rest.find(marker) {
+      let after = &rest[i + marker.len()..];
+      let name: String = after.chars().take_while(|c| c.is_alphanumeric() || *c == '_' || *c == '$').collect();
+      if !name.is_empty()
+        && original.contains(&format!("\n{}.", name))
+        && emitted.contains(&format!("export namespace {} {{", name))
+      {
+        out.insert(name);
+      }
+      rest = after;
+    }
+  }
+  out
 }
